@@ -349,7 +349,7 @@ impl ConsumeUnverifiedBlockProcessor {
             }
 
             db_txn.insert_tip_header(&block.header())?;
-            if new_epoch || fork.has_detached() {
+            if new_epoch || fork.has_detached() || fork.attached_blocks().len() > 1 {
                 db_txn.insert_current_epoch_ext(&epoch)?;
             }
         } else {
